@@ -47,8 +47,14 @@ Lemma candidates_no_fan d ps t :
   existsb t (candidates d ps) = some_expanded (VDoc d) (split_path ps) t.
 Proof.
   intros Hg Hf. destruct (All_no_fan d ps Hg Hf) as [x [HA HR]].
-  unfold candidates, unwind_candidates, some_expanded. rewrite HA, HR. simpl negb. simpl orb.
+  unfold candidates, unwind_candidates, some_expanded. rewrite HA, HR.
   simpl flat_map. rewrite app_nil_r. apply existsb_expand_elems.
+Qed.
+
+Lemma existsb_leaves_expand t l :
+  existsb t (flat_map leaf_candidates l) = existsb t (flat_map expand l).
+Proof.
+  rewrite !existsb_flat_map. apply existsb_ext_in. intros x _. apply existsb_expand_elems.
 Qed.
 
 (* tests that can only hold on non-array, non-missing values *)
@@ -75,20 +81,22 @@ Proof.
   destruct x; try reflexivity. simpl. rewrite Ha. reflexivity.
 Qed.
 
-Lemma candidates_scalar_test d ps t :
+(* under fan-out lungo offers every value found, like the reference; the
+   Missing candidates of the reference are the only difference *)
+Lemma candidates_nomissing d ps t :
   d1 (VDoc d) = true -> d3 (VDoc d) = true -> good_path (split_path ps) = true ->
-  scalar_test t ->
+  t VMissing = false ->
   existsb t (candidates d ps) = some_expanded (VDoc d) (split_path ps) t.
 Proof.
-  intros H1 H3 Hg [Hm Ha].
+  intros H1 H3 Hg Hm.
   destruct (collected_leaves (VDoc d) (split_path ps) H1 H3 Hg) as [Pn Pe].
   unfold candidates, unwind_candidates, some_expanded. rewrite All_eq.
   destruct (get (VDoc d) (split_path ps) true true) as [val n].
-  simpl fst in *. simpl snd in *.
+  simpl fst in *. simpl snd in *. rewrite orb_true_r.
   rewrite <- (existsb_expand_filter t (rlookup _ _) Hm), <- Pe, (existsb_expand_filter t _ Hm).
   destruct n.
-  - destruct (Pn eq_refl) as [l [-> _]]. simpl. rewrite app_nil_r. apply existsb_merge_expand. exact Ha.
-  - simpl negb. simpl orb. simpl leaves. simpl flat_map. rewrite app_nil_r. apply existsb_expand_elems.
+  - destruct (Pn eq_refl) as [l [-> _]]. simpl leaves. rewrite app_nil_r. apply existsb_leaves_expand.
+  - simpl leaves. simpl flat_map. rewrite app_nil_r. apply existsb_expand_elems.
 Qed.
 
 (* the form used below: either no fan-out, or a scalar test *)
@@ -97,7 +105,7 @@ Lemma candidates_ref d ps t :
   fans_out (VDoc d) (split_path ps) = false \/ scalar_test t ->
   existsb t (candidates d ps) = some_expanded (VDoc d) (split_path ps) t.
 Proof.
-  intros H1 H3 Hg [Hf|Ht]; [apply candidates_no_fan | apply candidates_scalar_test]; assumption.
+  intros H1 H3 Hg [Hf|[Ht _]]; [apply candidates_no_fan | apply candidates_nomissing]; assumption.
 Qed.
 
 (* ---------------------------------------------------------------- *)
@@ -186,24 +194,15 @@ Lemma core_op_nin x root p :
   match x with VArr vs => negb (fans_out root p) || forallb plain_scalar vs | _ => false end.
 Proof. destruct x; reflexivity. Qed.
 
-Lemma core_op_exists x root p :
-  core_op strict x "$exists" root p =
-  negb (fans_out root p) || false
-  || negb (existsb (fun c => match c with VArr [] => true | _ => false end) (rlookup root p)).
+Lemma core_op_exists x root p : core_op strict x "$exists" root p = true.
 Proof. destruct x; reflexivity. Qed.
 
 Lemma core_op_type x root p :
-  core_op strict x "$type" root p =
-  match type_spec x with
-  | Some spec =>
-      negb (fans_out root p) || false || negb (existsb (fun t => (t =? ty_array)%Z) (snd spec))
-  | None => false
-  end.
+  core_op strict x "$type" root p = match type_spec x with Some _ => true | None => false end.
 Proof. destruct x; reflexivity. Qed.
 
 Lemma core_op_size x root p :
-  core_op strict x "$size" root p =
-  (negb (fans_out root p) || false) && match size_arg x with Ok _ => true | _ => false end.
+  core_op strict x "$size" root p = match size_arg x with Ok _ => true | _ => false end.
 Proof. destruct x; reflexivity. Qed.
 
 Lemma core_op_mod x root p :
@@ -532,44 +531,54 @@ Section Leaf2.
   Hypothesis H3 : d3 root = true.
   Hypothesis Hg : good_path p = true.
 
+  (* what lungo collected at the path, against the reference candidates *)
+  Lemma collected_all :
+    exists val n,
+      All d ps true false = (val, n) /\
+      (n = true -> exists l, val = VArr l /\ Forall (fun x => nm x = true) l) /\
+      filter nm (leaves val n) = filter nm (rlookup root p).
+  Proof.
+    destruct (collected_leaves root p H1 H3 Hg) as [Pn Pe].
+    rewrite All_eq. destruct (get root p true true) as [val n].
+    simpl fst in *. simpl snd in *. rewrite orb_true_r.
+    exists val, n. auto.
+  Qed.
+
+  Lemma filter_nm_all l : Forall (fun x => nm x = true) l -> filter nm l = l.
+  Proof. intro Fl. induction Fl as [|y l Hy _ IH]; [reflexivity|]. simpl. rewrite Hy, IH. reflexivity. Qed.
+
   Lemma leaf_exists x :
     core_op strict x "$exists" root p = true ->
     eval_op x "$exists" d ps = Ok (ref_op x "$exists" root p).
   Proof.
-    intro Hc. rewrite core_op_exists, orb_false_r in Hc. rewrite ref_op_exists.
+    intros _. rewrite ref_op_exists.
     rewrite eval_op_eq. cbn [lookup_expr assoc expr_table String.eqb Ascii.eqb Bool.eqb].
     unfold match_exists, some_unexpanded. rewrite existsb_filter_nm.
-    destruct (fans_out root p) eqn:Hf.
-    - (* fan-out: through the collected leaves *)
-      simpl in Hc. apply negb_true_iff in Hc.
-      destruct (collected_leaves root p H1 H3 Hg) as [Pn Pe].
-      rewrite All_eq. destruct (get root p true true) as [val n].
-      simpl fst in *. simpl snd in *. rewrite <- Pe.
-      destruct n.
-      + destruct (Pn eq_refl) as [l [-> Fl]]. simpl negb. simpl orb. cbv iota. cbv beta.
-        simpl leaves in *.
-        assert (Efl : filter nm l = l).
-        { clear - Fl. induction Fl as [|y l Hy _ IH]; [reflexivity|]. simpl. rewrite Hy, IH. reflexivity. }
-        rewrite Efl in *.
-        assert (Hno : existsb (fun c => match c with VArr [] => true | _ => false end) l = false).
-        { rewrite Pe. apply no_empty_filter. exact Hc. }
-        rewrite (merged_nonempty l Hno). destruct l; reflexivity.
-      + simpl negb. simpl orb. simpl leaves. simpl filter. unfold nm.
-        destruct (negb (is_missing val)); reflexivity.
-    - destruct (All_no_fan d ps Hg Hf) as [y [HA HR]]. rewrite HA, HR. simpl filter. unfold nm.
-      destruct (negb (is_missing y)); reflexivity.
+    destruct collected_all as [val [n [HA [Pn Pe]]]]. rewrite HA, <- Pe.
+    destruct n.
+    - destruct (Pn eq_refl) as [l [-> Fl]]. simpl leaves. rewrite (filter_nm_all l Fl).
+      destruct l; reflexivity.
+    - simpl leaves. simpl filter. unfold nm. destruct (negb (is_missing val)); reflexivity.
+  Qed.
+
+  Lemma existsb_has_len_filter n l : existsb (has_len n) (filter nm l) = existsb (has_len n) l.
+  Proof.
+    induction l as [|y l IH]; [reflexivity|]. simpl. destruct (nm y) eqn:E; simpl; rewrite IH; [reflexivity|].
+    destruct y; try discriminate E. reflexivity.
   Qed.
 
   Lemma leaf_size x :
     core_op strict x "$size" root p = true ->
     eval_op x "$size" d ps = Ok (ref_op x "$size" root p).
   Proof.
-    intro Hc. rewrite core_op_size, orb_false_r in Hc. apply andb_prop in Hc. destruct Hc as [Hf Hs].
-    apply negb_true_iff in Hf. rewrite ref_op_size.
+    intro Hc. rewrite core_op_size in Hc. rewrite ref_op_size.
     rewrite eval_op_eq. cbn [lookup_expr assoc expr_table String.eqb Ascii.eqb Bool.eqb].
     unfold match_size. destruct (size_arg x) as [n| | | |]; try discriminate.
-    destruct (All_no_fan d ps Hg Hf) as [y [HA HR]]. rewrite HA. unfold some_unexpanded. rewrite HR.
-    simpl. rewrite orb_false_r. reflexivity.
+    unfold some_unexpanded. rewrite <- (existsb_has_len_filter n (rlookup root p)).
+    destruct collected_all as [val [m [HA [Pn Pe]]]]. rewrite HA, <- Pe.
+    destruct m.
+    - destruct (Pn eq_refl) as [l [-> Fl]]. simpl leaves. rewrite (filter_nm_all l Fl). reflexivity.
+    - simpl leaves. rewrite existsb_has_len_filter. simpl. rewrite orb_false_r. reflexivity.
   Qed.
 
   Lemma mod_scalar_test dv rm : scalar_test (fun c => ok_true (mod_test dv rm c)).
@@ -615,7 +624,7 @@ End Leaf2.
 
 Lemma match_type_spec d ps x spec :
   type_spec x = Some spec ->
-  match_type d ps x = unwind d ps true false (type_test (fst spec) (snd spec)).
+  match_type d ps x = unwind d ps false (type_test (fst spec) (snd spec)).
 Proof.
   unfold type_spec, match_type. intro H.
   destruct x as [| | ? | ? | ? | ? ? | ? | ? | arr | ? ? | ? | ? | ? | ? ? | ? ?];
@@ -640,16 +649,11 @@ Section Leaf3.
     intro Hc. rewrite core_op_type in Hc. rewrite ref_op_type.
     rewrite eval_op_eq. cbn [lookup_expr assoc expr_table String.eqb Ascii.eqb Bool.eqb].
     destruct (type_spec x) as [spec|] eqn:Hs; [|discriminate].
-    rewrite orb_false_r in Hc.
     rewrite (match_type_spec d ps x spec Hs).
     rewrite (unwind_ok (has_type spec))
       by (intro c; unfold type_test, has_type; destruct (is_missing c); reflexivity).
     fold (candidates d ps). f_equal.
-    apply (candidates_ref d ps (has_type spec) H1 H3 Hg).
-    apply (fan_or_scalar d ps (negb (existsb (fun t => (t =? ty_array)%Z) (snd spec)))); [exact Hc|].
-    intro Ha. apply negb_true_iff in Ha. split.
-    - reflexivity.
-    - intro a. unfold has_type. simpl. rewrite andb_false_r. simpl. exact Ha.
+    apply (candidates_nomissing d ps (has_type spec) H1 H3 Hg). reflexivity.
   Qed.
 End Leaf3.
 
@@ -745,10 +749,10 @@ Proof.
   unfold match_all.
   destruct vs as [|v0 vs].
   - rewrite (unwind_ok (fun _ => false)) by (intro c; reflexivity).
-    f_equal. induction (unwind_candidates d ps false true); [reflexivity|assumption].
+    f_equal. induction (unwind_candidates d ps true); [reflexivity|assumption].
   - rewrite (unwind_ok (all_holds (v0 :: vs)))
       by (intro c; unfold all_test, all_holds; destruct c; reflexivity).
-    unfold unwind_candidates, some_unexpanded. rewrite HA, HR. simpl negb. simpl orb.
+    unfold unwind_candidates, leaf_candidates, some_unexpanded. rewrite HA, HR.
     f_equal.
     transitivity (all_ref (v0 :: vs) y); [|unfold all_ref; cbn [existsb]; rewrite orb_false_r; reflexivity].
     apply all_equiv.
@@ -1145,44 +1149,11 @@ Example nested_array_refuted :
   differs [("a", VArr [VArr [VDoc [("b", VInt32 1)]]])] [("a.b", VInt32 1)] true.
 Proof. vm_compute. repeat split. Qed.
 
-(* outside D2: an array operand under fan-out — lungo merges the collected
-   arrays before comparing *)
-Example array_operand_fanout_refuted :
-  differs [("a", VArr [VDoc [("b", VArr [VInt32 1; VInt32 2])]; VDoc [("b", VArr [VInt32 3])]])]
-          [("a.b", VArr [VInt32 3])] false.
-Proof. vm_compute. repeat split. Qed.
-
-(* (b) INSIDE D1-D4: genuine defects of lungo, recorded in known_findings.json
+(* (b) INSIDE D1-D4: a genuine defect of lungo, recorded in known_findings.json
    (property C10) under the signature given by domain_class; match_ref is
-   proved on the domain minus these classes *)
+   proved on the domain minus this class *)
 Definition finding (d f : doc) (lungo : bool) (signature : string) : Prop :=
   Match d f = Ok lungo /\ RefMatch.holds d f = negb lungo /\ domain_class d f = DFinding signature.
-
-(* under fan-out array leaves are merged into their elements: $type "array"
-   no longer sees them *)
-Example type_array_fanout_refuted :
-  finding [("a", VArr [VDoc [("b", VArr [VInt32 1])]])] [("a.b", VDoc [("$type", VString "array")])]
-          false "C10:type-array-under-fanout".
-Proof. vm_compute. repeat split. Qed.
-
-(* under fan-out $exists tests the merged collection for emptiness: an empty
-   array at the path does not count as existing *)
-Example exists_fanout_empty_refuted :
-  finding [("a", VArr [VDoc [("b", VArr [])]])] [("a.b", VDoc [("$exists", VBool true)])]
-          false "C10:exists-under-fanout-empty-array".
-Proof. vm_compute. repeat split. Qed.
-
-(* $size under (two-level) fan-out measures the collected result lists *)
-Example size_fanout_refuted :
-  finding [("a", VArr [VDoc [("b", VArr [VDoc [("c", VArr [VInt32 1; VInt32 2])]])]])]
-          [("a.b.c", VDoc [("$size", VInt32 2)])] false "C10:size-under-fanout".
-Proof. vm_compute. repeat split. Qed.
-
-(* ... and takes an empty collection for an empty array *)
-Example size_fanout_phantom_refuted :
-  finding [("a", VArr [VDoc [("b", VArr [])]])] [("a.b.c", VDoc [("$size", VInt32 0)])]
-          true "C10:size-under-fanout".
-Proof. vm_compute. repeat split. Qed.
 
 (* a numeric segment that indexes into an array of documents: the reference
    also follows the segment as a field name of each element, which yields
@@ -1192,8 +1163,41 @@ Example index_null_refuted :
           true "C10:null-with-index-into-document-array".
 Proof. vm_compute. repeat split. Qed.
 
-(* (c) repaired in lungo (known_findings.json, status fixed): the two inputs
-   that used to differ are now inside `core`, where match_ref applies *)
+(* (c) repaired in lungo (known_findings.json, status fixed): the inputs that
+   used to differ are now inside `core`, where match_ref applies *)
+Definition repaired (d f : doc) (answer : bool) : Prop :=
+  core d f /\ Match d f = Ok answer /\ RefMatch.holds d f = answer.
+
+(* C10:type-array-under-fanout: under fan-out every value found is matched like
+   a directly addressed field, so $type "array" sees the arrays found *)
+Example type_array_fanout_repaired :
+  repaired [("a", VArr [VDoc [("b", VArr [VInt32 1])]])] [("a.b", VDoc [("$type", VString "array")])] true.
+Proof. vm_compute. repeat split. Qed.
+
+(* C10:exists-under-fanout-empty-array *)
+Example exists_fanout_empty_repaired :
+  repaired [("a", VArr [VDoc [("b", VArr [])]])] [("a.b", VDoc [("$exists", VBool true)])] true.
+Proof. vm_compute. repeat split. Qed.
+
+(* C10:size-under-fanout, both directions *)
+Example size_fanout_repaired :
+  repaired [("a", VArr [VDoc [("b", VArr [VDoc [("c", VArr [VInt32 1; VInt32 2])]])]])]
+           [("a.b.c", VDoc [("$size", VInt32 2)])] true.
+Proof. vm_compute. repeat split. Qed.
+
+Example size_fanout_phantom_repaired :
+  repaired [("a", VArr [VDoc [("b", VArr [])]])] [("a.b.c", VDoc [("$size", VInt32 0)])] false.
+Proof. vm_compute. repeat split. Qed.
+
+(* outside D2, but repaired by the same change: an array operand under fan-out
+   is now compared with every array found *)
+Example array_operand_fanout_repaired :
+  Match [("a", VArr [VDoc [("b", VArr [VInt32 1; VInt32 2])]; VDoc [("b", VArr [VInt32 3])]])]
+        [("a.b", VArr [VInt32 3])] = Ok true /\
+  RefMatch.holds [("a", VArr [VDoc [("b", VArr [VInt32 1; VInt32 2])]; VDoc [("b", VArr [VInt32 3])]])]
+        [("a.b", VArr [VInt32 3])] = true.
+Proof. vm_compute. repeat split. Qed.
+
 Example type_null_missing_repaired :
   core [("b", VInt32 1)] [("a", VDoc [("$type", VString "null")])] /\
   Match [("b", VInt32 1)] [("a", VDoc [("$type", VString "null")])] = Ok false /\
@@ -1213,19 +1217,16 @@ Proof. vm_compute. repeat split. Qed.
 Lemma domain_class_core d f : domain_class d f = DCore <-> core d f.
 Proof.
   unfold domain_class, core. destruct (coreb d f); [split; reflexivity|].
-  split; [|discriminate].
-  destruct (negb (domainb d f)); [discriminate|].
-  repeat match goal with |- context [if ?b then _ else _] => destruct b end; discriminate.
+  split; [|discriminate]. destruct (negb (domainb d f)); discriminate.
 Qed.
 
 Lemma domain_class_outside d f : domain_class d f = DOutside -> domainb d f = false.
 Proof.
   unfold domain_class. destruct (coreb d f); [discriminate|].
-  destruct (domainb d f); [|reflexivity]. simpl.
-  repeat match goal with |- context [if ?b then _ else _] => destruct b end; discriminate.
+  destruct (domainb d f); [discriminate|reflexivity].
 Qed.
 
-(* non-vacuity of match_ref_partial: covered pairs with fan-out, both answers *)
+(* non-vacuity of match_ref: covered pairs with fan-out, both answers *)
 Example match_ref_example :
   core_covered [("a", VArr [VDoc [("b", VInt32 1)]; VDoc [("b", VArr [VInt32 5; VInt32 7])]; VDoc [("c", VNull)]]); ("n", VInt32 7)]
                [("$or", VArr [VDoc [("a.b", VDoc [("$gt", VInt32 6)])]; VDoc [("x", VNull)]]);
